@@ -46,7 +46,11 @@ pub fn record_c20(out: &str, seed: u64, n: usize, c02_cases: &str) {
         "||x.com^$redirect=noop.js", "||x.com^$csp=x", "||x.com^$removeparam=a", "||x.com^$badfilter", "@@||x.com^$generichide", "/re[0-9]{2}x/",
         "/re.x/$match-case", "|http://", "|https://", "|ws://", "|ws://$~websocket", "|http://$websocket", "|https://$image", "*$image", "*$third-party,script",
         "/a$b$script", "/banner$domain=ads.example|~cdn.example/track.js$script,domain=news.example", "a$domain=x.com,image", "/a.b?c=d&e+f(g)[h]{i}|j\\k^l",
-        "/реклама/banner.gif", "||пример.рф^", "-баннер-$image,third-party", "||x.com^$tag=t", "||x.com*y^", "||x.com^*/ads", "||*.x.com^", "||x.com:8080/a",
+        "/реклама/banner.gif", "||пример.рф^", "-баннер-$image,third-party",
+        // non-ASCII text in the path of rules that take the other conversion paths: several types with subdocument (split into
+        // two entries), exceptions, a party option, a domain list
+        "||x.com/bük*.jpg$image,subdocument", "/реклама/*$script,subdocument,domain=news.example", "@@/реклама/*$image,subdocument",
+        "||x.com/é$subdocument", "/é/*$image,third-party", "@@||x.com/ü^$document", "||x.com^$tag=t", "||x.com*y^", "||x.com^*/ads", "||*.x.com^", "||x.com:8080/a",
         // regex metacharacters inside the ||host part (the parser keeps whatever precedes the first '/', '^' or '*')
         "||a+b.example.com/x", "||ads{n}.example.com^", "||a(b.example.com^", "||cdn$1.example.com^$script", "||a[b].example.com^", "||a?b.example.com^$image",
         "||a|b.example.com^", "||a\\b.example.com^",
